@@ -19,21 +19,23 @@ CHECKS = {
             "caller is checked against domains, offsets and all posted relations",
             BASE_TRUST, "3 C01, 2.5, 2.8", "SolveMC"),
     "C02": (MC, SOLVE_T + "; oracle = brute-force solution multiset; all posting permutations",
-            "find_all of every problem of U under every configuration and posting order is compared as a multiset with an "
-            "independent enumeration of the cartesian product", BASE_TRUST, "3 C02, 2.5, 2.8", "SolveMC"),
+            "find_all of every problem of U (constructor and add_variable(s) spellings) under every configuration and posting order is "
+            "compared as a multiset with an independent enumeration of the cartesian product", BASE_TRUST, "3 C02, 2.5, 2.8", "SolveMC"),
     "C03": (MC, SOLVE_T + "; oracle = brute-force optimum + restart-state invariant + step budgets",
             "minimize/maximize of every variable of every problem of U under every configuration; the restart history is observed "
-            "by interposing reset/decrease_max/increase_min", BASE_TRUST, "3 C03, 2.9", "SolveMC"),
+            "by interposing reset/decrease_max/increase_min; the distributed variant is explored with SchedMC (every merge of the "
+            "real workers' incumbent streams)", BASE_TRUST, "3 C03, 2.9", "SolveMC"),
     "C04": (MC, "PropMC under a deterministic jump budget + SolveMC with per-pass execution bound, run budget and heuristic-answer validation",
             "bounded liveness: every filtering call of the contract table and every solver run on U is executed under deterministic "
             "step budgets (sys.monitoring loop-iteration counts; (P+1)(D+1) executions per pass)", BASE_TRUST, "3 C04, 2.9", "PropMC+SolveMC"),
     "C05": (MC, PROP_T,
             "every (type, arity, parameter vector, box) of the contract table is executed on the real propagator and compared "
-            "with the brute-force solution set of the box: a coverage statement over the whole small scope, not a sample",
+            "with the brute-force solution set of the box: a coverage statement over the whole small scope, not a sample; plus a "
+            "wide-domain slice (bounds around 2^8 / 2^16 / +-70000) against closed-form and Hall-interval references",
             BASE_TRUST, "3 C05, 2.3, 2.7", "PropMC"),
     "C06": (MC, PROP_T + "; every ground tuple and every box collapsed to a point by one call",
             "every ground tuple of the value cube and every enumerated box that one call collapses to a point is judged by the "
-            "independent relation predicate", BASE_TRUST, "3 C06, 2.3", "PropMC"),
+            "independent relation predicate; ground tuples only at arity 4-10 (all permutations of 7-8 vertices for the circuit constraints)", BASE_TRUST, "3 C06, 2.3", "PropMC"),
     "C07": (MC, PROP_T + " + explicit-state search over the real engine (EngineMC) with a reference frame stack",
             "(a) every 'entailed' answer of the 12 types that can give one is checked against the truth table of the returned box; "
             "(b) every reachable search state (all variable orders, 4 value heuristics, BC and shaving) of the small problems of U: "
@@ -50,7 +52,8 @@ CHECKS = {
             "in-contract cost table), compared transition by transition with a reference model", BASE_TRUST, "3 C09, 2.4", "StackMC"),
     "C10": (MC, "explicit-state search over the real engine; differential run of real shaving vs real BC on clones of every state (EngineMC)",
             "in every reachable state where a consistency algorithm is invoked, shaving and BC are run on clones: containment, no "
-            "solution lost, stack height and lower levels untouched, status soundness; plus whole-solver differential runs",
+            "solution lost, stack height and lower levels untouched, status soundness; tight stacks (heights 3-6, three-way split) included; "
+            "plus whole-solver differential runs",
             BASE_TRUST, "3 C10, 2.4", "EngineMC"),
     "C11": (MC, "stateless deviation-bounded exploration of all merges of the real workers' message streams against the real parent (SchedMC: fake Process/Queue)",
             "every interleaving of the workers' real message streams (plus spurious timeouts / late termination observations up to a "
@@ -61,10 +64,11 @@ CHECKS = {
             "disjoint union of the parts' solutions equals the original solution set", BASE_TRUST, "3 C12", "SplitMC"),
     "C14": (MC, PROP_T + "; oracle = exact bounds hull, second call, one-round interval reference for affine_eq",
             "for the 17 documented bound-consistent propagators every enumerated call must return exactly the hull and be idempotent; "
-            "affine_eq must return the one-round interval box", BASE_TRUST, "3 C14, 2.3", "PropMC"),
+            "affine_eq must return the one-round interval box; plus the wide-domain slice of mc/wide.py", BASE_TRUST, "3 C14, 2.3", "PropMC"),
     "C17": (MC, SOLVE_T + "; oracle = event counts observed by interposition + conservation laws",
             "each of the 13 statistics is compared with the count of real events seen by wrappers around every propagator, "
-            "heuristic, consistency algorithm, backtrack, cp_put and shave_bound, on exhaustive, partial and optimisation runs",
+            "heuristic, consistency algorithm, backtrack, cp_put and shave_bound, on exhaustive, partial and optimisation runs, "
+            "generous and exactly-full stacks",
             BASE_TRUST, "3 C17", "SolveMC"),
 }
 
@@ -77,7 +81,8 @@ CHECKS["C18"] = ("fault_enumeration", "exhaustive enumeration of (worker, crash 
 EXP = "exploration"
 CHECKS["C13"] = (EXP, "exhaustive enumeration of a finite (model, meaning-preserving rewrite, configuration) grid; differential runs of the real solver (RewriteMC)",
                  "models of U (every sharing layout) and shipped models converted from the real Problem objects x de-sharing, all "
-                 "constraint / variable permutations (<= 4), duplication, always-true constraints, translation: solution sets and "
+                 "constraint / variable permutations (<= 4), duplication, always-true constraints, translation, the add_variable / "
+                 "add_variables spellings: solution sets and "
                  "optima of the two writings are compared; exploration level because the grid of models is a chosen finite set",
                  BASE_TRUST, "3 C13", "RewriteMC")
 CHECKS["C15"] = (MC, "exhaustive enumeration of histories of solver use (words over 7 operations up to a length, each in a child forked from a pristine "
